@@ -115,13 +115,15 @@ func (f *frame) alloc(st *State, a *ssa.Alloc) Val {
 			// package initialisation starts from the empty heap: objects get concrete addresses
 			ex.initRefs++
 			ref = num(int64(ex.initRefs))
+			st.frontier = ref
 		} else {
 			ref = ex.decls.fresh("new_"+n.Obj().Name(), SInt)
 			st.assume(tLe("0", ex.heapTop()))
+			// allocation is dense and monotone: the new object is the next address, so the
+			// objects that exist are exactly 1..frontier
+			st.assume(tEq(ref, tAdd(ex.frontierOf(st), "1")))
 			st.assume(tLt(ex.heapTop(), ref))
-			for _, o := range st.fresh {
-				st.assume(tNe(ref, o))
-			}
+			st.frontier = ref
 			st.fresh = append(st.fresh, ref)
 		}
 		u := n.Underlying().(*types.Struct)
@@ -769,4 +771,10 @@ func (f *frame) mapLookup(st *State, x *ssa.Lookup, base Val) {
 	} else {
 		st.regs[x] = res
 	}
+}
+func (ex *Exec) frontierOf(st *State) T {
+	if st.frontier == "" {
+		return ex.heapTop()
+	}
+	return st.frontier
 }
